@@ -250,6 +250,20 @@ def structure(chk, w):
                     [defuse.show(du.origin(a)) for a in t.args] == [rng, "&" + v]]
             okk = any(dominated_by_test(bb, lambda s_, c=cb: s_.startswith("contains(%s, &%s)" % (rng, v)), 1)
                       for cb, _t in cont)
+            if not okk:
+                # ... or spelled out as two comparisons, possibly collected in a boolean (`let within = a >= min && a <= max`)
+                import guards
+                lo = hi = False
+                for o_, tr_ in guards.facts(b, du, bb):
+                    if tr_ is None or o_[0] != "bin":
+                        continue
+                    op_ = o_[1] if tr_ else {"Ge": "Lt", "Gt": "Le", "Le": "Gt", "Lt": "Ge"}.get(o_[1])
+                    x_, y_ = defuse.show(o_[2]), defuse.show(o_[3])
+                    if (op_ == "Ge" and x_ == v and y_ == MINF) or (op_ == "Le" and x_ == MINF and y_ == v):
+                        lo = True
+                    if (op_ == "Le" and x_ == v and y_ == MAXF) or (op_ == "Ge" and x_ == MAXF and y_ == v):
+                        hi = True
+                okk = lo and hi
             if okk:
                 chk.ok("BOUND", "the lone-note crossing %s enters the split only inside "
                        "(min..=max).contains(..)" % v, sample=True)
